@@ -91,3 +91,58 @@ Qed.
 (* all ranks take part in the same collectives while saving and loading *)
 Lemma ckpt_comm_rank_independent dir : forall (r r' : nat), save_comm dir = save_comm dir /\ load_comm dir = load_comm dir.
 Proof. intros; split; reflexivity. Qed.
+
+(* ---- directory save: when state_dict() has returned on ANY rank, EVERY rank has written its files ---- *)
+Definition dsafe (s : dpcs) : Prop := (exists pc, In pc s /\ 3 <= pc) -> forall pc, In pc s -> 2 <= pc.
+Definition dbounded (s : dpcs) : Prop := forall pc, In pc s -> pc <= 3.
+
+Lemma bump_in s : forall r pc, In pc (bump s r) -> In pc s \/ (exists q, nth_error s r = Some q /\ pc = S q).
+Proof.
+  induction s as [|q t IH]; intros r pc H; [destruct r; destruct H|].
+  destruct r as [|r']; cbn [bump] in H.
+  - destruct H as [<-|H]; [right; exists q; split; reflexivity|left; now right].
+  - destruct H as [<-|H]; [left; now left|]. destruct (IH r' pc H) as [H1|(q' & H1 & H2)]; [left; now right|right; exists q'; split; assumption].
+Qed.
+
+Lemma bump_mono s : forall r pc, In pc s -> exists pc', In pc' (bump s r) /\ pc <= pc'.
+Proof.
+  induction s as [|q t IH]; intros r pc H; [destruct H|].
+  destruct r as [|r']; cbn [bump].
+  - destruct H as [<-|H]; [exists (S q); split; [now left|lia]|exists pc; split; [now right|lia]].
+  - destruct H as [<-|H]; [exists q; split; [now left|lia]|]. destruct (IH r' pc H) as (pc' & H1 & H2). exists pc'; split; [now right|exact H2].
+Qed.
+
+Lemma all_reached_spec k s : all_reached k s = true <-> forall pc, In pc s -> k <= pc.
+Proof. unfold all_reached. rewrite forallb_forall. split; intros H pc Hp; specialize (H pc Hp); [now apply Nat.leb_le|now apply Nat.leb_le]. Qed.
+
+(* stronger invariant that is inductive: either nobody has returned, or everybody has written *)
+Definition dinv (s : dpcs) : Prop := (forall pc, In pc s -> pc <= 2) \/ (forall pc, In pc s -> 2 <= pc).
+
+Lemma dinv_safe s : dinv s -> dsafe s.
+Proof. intros [H|H] (pc & Hp & H3); [specialize (H pc Hp); lia|exact H]. Qed.
+
+Lemma dstep_inv s r : dinv s -> dstep_ok true s r = true -> dinv (bump s r).
+Proof.
+  intros Hi Hok. unfold dstep_ok in Hok. destruct (nth_error s r) as [q|] eqn:E; [|discriminate].
+  destruct q as [|[|[|q]]]; try discriminate.
+  - (* 0 -> 1 *) destruct Hi as [H|H].
+    + left. intros pc Hp. apply bump_in in Hp as [Hp|(q' & E' & ->)]; [now apply H|]. rewrite E in E'. injection E' as <-. lia.
+    + exfalso. apply nth_error_In in E. specialize (H 0 E). lia.
+  - (* 1 -> 2 *) destruct Hi as [H|H].
+    + left. intros pc Hp. apply bump_in in Hp as [Hp|(q' & E' & ->)]; [now apply H|]. rewrite E in E'. injection E' as <-. lia.
+    + exfalso. apply nth_error_In in E. specialize (H 1 E). lia.
+  - (* 2 -> 3: the closing barrier *) right. change (all_reached 2 s = true) in Hok. pose proof (proj1 (all_reached_spec 2 s) Hok) as Hall. clear Hok; rename Hall into Hok.
+    intros pc Hp. apply bump_in in Hp as [Hp|(q' & E' & ->)]; [now apply Hok|]. rewrite E in E'. injection E' as <-. lia.
+Qed.
+
+Lemma drun_inv sched : forall s, dinv s -> dinv (drun true s sched).
+Proof.
+  induction sched as [|r t IH]; intros s Hi; cbn [drun]; [exact Hi|].
+  apply IH. destruct (dstep_ok true s r) eqn:E; [now apply dstep_inv|exact Hi].
+Qed.
+
+Lemma dinit_inv n : dinv (dinit n).
+Proof. left. intros pc Hp. unfold dinit in Hp. apply repeat_spec in Hp. lia. Qed.
+
+Lemma dir_save_complete_when_returned_l n sched : dsafe (drun true (dinit n) sched).
+Proof. apply dinv_safe, drun_inv, dinit_inv. Qed.
